@@ -821,6 +821,26 @@ class World:
         importlib.invalidate_caches()
         self.peltool = importlib.import_module("pel.peltool.peltool")
 
+    def in_pristine_modules(self, fn):
+        """run fn() with a freshly imported module set (same environment),
+        then put the long-lived module set back untouched"""
+        saved = {n: m for n, m in sys.modules.items() if n.split(".", 1)[0] in PURGE_PREFIXES}
+        lived = self.peltool
+        purge_modules()
+        importlib.invalidate_caches()
+        err, saved_err = io.StringIO(), sys.stderr
+        sys.stderr = err
+        try:
+            self.peltool = importlib.import_module("pel.peltool.peltool")
+        finally:
+            sys.stderr = saved_err
+        try:
+            return fn()
+        finally:
+            purge_modules()
+            sys.modules.update(saved)
+            self.peltool = lived
+
     def stop(self):
         self.fs.uninstall()
         if self._saved_meta is not None:
